@@ -45,7 +45,12 @@ theorem msEncInit_of_passes {fs ch st cp : Int} {mp : List Nat} {app : Int} {sur
   · have : (validFs fs && validApp app) = false := by cases h : (validFs fs && validApp app) <;> simp_all
     simp [this]
 
-/-- For every family in {0, 1, 2, 255} and every channel count 1..255: the layout exists exactly for
+theorem surroundLayout_other (ch fam : Int) (hf : fam ≠ 0 ∧ fam ≠ 1 ∧ fam ≠ 2 ∧ fam ≠ 255) :
+    surroundLayout ch fam = .err .unimplemented := by
+  unfold surroundLayout
+  simp [hf.1, hf.2.1, hf.2.2.1, hf.2.2.2]
+
+/-- For every family in {0, 1, 2} and every channel count 1..255: the layout exists exactly for
     the legal counts and then passes every layout check of the multistream encoder. -/
 def surroundTable (fam : Int) (lo hi : Nat) : Bool :=
   (List.range (hi - lo)).all fun i =>
@@ -58,11 +63,28 @@ def surroundTable (fam : Int) (lo hi : Nat) : Bool :=
 
 theorem surroundTable_0 : surroundTable 0 0 256 = true := by decide +kernel
 theorem surroundTable_1 : surroundTable 1 0 256 = true := by decide +kernel
-theorem surroundTable_2 : surroundTable 2 0 256 = true := by decide +kernel
-theorem surroundTable_255a : surroundTable 255 0 96 = true := by decide +kernel
-theorem surroundTable_255b : surroundTable 255 96 160 = true := by decide +kernel
-theorem surroundTable_255c : surroundTable 255 160 208 = true := by decide +kernel
-theorem surroundTable_255d : surroundTable 255 208 256 = true := by decide +kernel
+theorem surroundTable_2a : surroundTable 2 0 128 = true := by decide +kernel
+theorem surroundTable_2b : surroundTable 2 128 256 = true := by decide +kernel
+
+/-- Family 255 (one mono stream per channel, identity mapping) passes every layout check, for every
+    channel count 1..255 — proved in general, not by enumeration. -/
+theorem family255_passes (n : Nat) (h1 : 1 ≤ n) (h2 : n ≤ 255) :
+    layoutPasses (n : Int) ((n : Int), 0, List.range n) false = true := by
+  have htake : (List.range n).take (n : Int).toNat = List.range n := by
+    simp
+  simp only [layoutPasses, Bool.and_eq_true, Bool.or_eq_true, Bool.not_false, true_or, and_true]
+  refine ⟨⟨?_, ?_⟩, ?_⟩
+  · simp only [msEncArgsOk, Bool.not_eq_true', decide_eq_false_iff_not]; omega
+  · simp only [validateLayout]
+    rw [if_neg (by omega), htake]
+    simp only [List.all_eq_true, List.mem_range, Bool.not_eq_true', Bool.and_eq_false_iff, decide_eq_false_iff_not]
+    intro m hm; left; omega
+  · simp only [validateEncoderLayout, List.all_eq_true, List.mem_range]
+    intro k hk
+    simp only [Int.toNat_natCast] at hk
+    rw [if_neg (by omega)]
+    simp only [hasChannel, htake, List.any_eq_true, List.mem_range, decide_eq_true_eq]
+    exact ⟨k, hk, by omega⟩
 
 theorem surroundTable_get {fam : Int} {lo hi n : Nat} (h : surroundTable fam lo hi = true) (h1 : lo ≤ n) (h2 : n < hi) (h0 : 1 ≤ n) :
     (match surroundLayout (n : Int) fam with
@@ -77,27 +99,78 @@ theorem surroundTable_get {fam : Int} {lo hi n : Nat} (h : surroundTable fam lo 
   · omega
   · exact h
 
-theorem surround_entry (fam : Int) (hf : fam = 0 ∨ fam = 1 ∨ fam = 2 ∨ fam = 255) (n : Nat) (h1 : 1 ≤ n) (h2 : n ≤ 255) :
-    (match surroundLayout (n : Int) fam with
-     | .ok l => surroundLegalB n fam && layoutPasses (n : Int) l (fam == 2)
-     | .err _ => !surroundLegalB n fam
-     | _ => false) = true := by
-  rcases hf with rfl | rfl | rfl | rfl
-  · exact surroundTable_get surroundTable_0 (by omega) (by omega) h1
-  · exact surroundTable_get surroundTable_1 (by omega) (by omega) h1
-  · exact surroundTable_get surroundTable_2 (by omega) (by omega) h1
-  · by_cases a : n < 96
-    · exact surroundTable_get surroundTable_255a (by omega) a h1
-    · by_cases b : n < 160
-      · exact surroundTable_get surroundTable_255b (by omega) b h1
-      · by_cases c : n < 208
-        · exact surroundTable_get surroundTable_255c (by omega) c h1
-        · exact surroundTable_get surroundTable_255d (by omega) (by omega) h1
+/-- In range, either the family defines a layout for the count and it passes every check, or it
+    defines none and `surroundLayout` refuses. -/
+theorem surround_cases (ch fam : Int) (hc : 1 ≤ ch ∧ ch ≤ 255) :
+    (surroundLegalB ch.toNat fam = true ∧ ∃ l, surroundLayout ch fam = .ok l ∧ layoutPasses ch l (fam == 2) = true) ∨
+    (surroundLegalB ch.toNat fam = false ∧ ∃ e, surroundLayout ch fam = .err e) := by
+  have hcn : ch = ((ch.toNat : Nat) : Int) := by omega
+  have of_entry : (match surroundLayout ch fam with
+     | .ok l => surroundLegalB ch.toNat fam && layoutPasses ch l (fam == 2)
+     | .err _ => !surroundLegalB ch.toNat fam
+     | _ => false) = true →
+      ((surroundLegalB ch.toNat fam = true ∧ ∃ l, surroundLayout ch fam = .ok l ∧ layoutPasses ch l (fam == 2) = true) ∨
+       (surroundLegalB ch.toNat fam = false ∧ ∃ e, surroundLayout ch fam = .err e)) := by
+    intro hent
+    cases hsl : surroundLayout ch fam with
+    | err e =>
+      rw [hsl] at hent
+      right; exact ⟨by simpa using hent, e, rfl⟩
+    | oob => rw [hsl] at hent; cases hent
+    | abort => rw [hsl] at hent; cases hent
+    | ok l =>
+      rw [hsl] at hent
+      simp only [Bool.and_eq_true] at hent
+      left; exact ⟨hent.1, l, rfl, hent.2⟩
+  by_cases h0 : fam = 0
+  · subst h0; apply of_entry
+    have := surroundTable_get surroundTable_0 (Nat.zero_le _) (show ch.toNat < 256 by omega) (by omega)
+    rw [← hcn] at this; exact this
+  by_cases h1 : fam = 1
+  · subst h1; apply of_entry
+    have := surroundTable_get surroundTable_1 (Nat.zero_le _) (show ch.toNat < 256 by omega) (by omega)
+    rw [← hcn] at this; exact this
+  by_cases h2 : fam = 2
+  · subst h2; apply of_entry
+    by_cases hlt : ch.toNat < 128
+    · have := surroundTable_get surroundTable_2a (Nat.zero_le _) hlt (by omega)
+      rw [← hcn] at this; exact this
+    · have := surroundTable_get surroundTable_2b (by omega) (show ch.toNat < 256 by omega) (by omega)
+      rw [← hcn] at this; exact this
+  by_cases h255 : fam = 255
+  · subst h255
+    left
+    refine ⟨by simp [surroundLegalB]; omega, (ch, 0, List.range ch.toNat), ?_, ?_⟩
+    · unfold surroundLayout
+      simp
+    · have := family255_passes ch.toNat (by omega) (by omega)
+      rw [← hcn] at this
+      exact this
+  · right
+    refine ⟨by simp [surroundLegalB, h0, h1, h2, h255], .unimplemented, surroundLayout_other ch fam ⟨h0, h1, h2, h255⟩⟩
 
-theorem surroundLayout_other (ch fam : Int) (hf : fam ≠ 0 ∧ fam ≠ 1 ∧ fam ≠ 2 ∧ fam ≠ 255) :
-    surroundLayout ch fam = .err .unimplemented := by
-  unfold surroundLayout
-  simp [hf.1, hf.2.1, hf.2.2.1, hf.2.2.2]
+theorem msSurroundCreate_ok_eq {fs ch fam app : Int} {allocOk : Bool} (hc : 1 ≤ ch ∧ ch ≤ 255) {st cp : Int} {mp : List Nat}
+    (hsl : surroundLayout ch fam = .ok (st, cp, mp)) (hp : layoutPasses ch (st, cp, mp) (fam == 2) = true) :
+    msSurroundCreate fs ch fam app allocOk =
+      if allocOk = false then .err .allocFail
+      else if (validFs fs && validApp app) = true then
+        .ok ({ nbChannels := ch, nbStreams := st, nbCoupled := cp, bitrateBps := OPUS_AUTO, variableDuration := FRAMESIZE_ARG,
+               application := app, lfeStream := (if fam = 1 ∧ ch ≥ 6 then st - 1 else -1),
+               surround := decide (ch > 2 ∧ fam = 1), ambisonics := decide (fam = 2),
+               streams := msStreams fs st cp app (if fam = 1 ∧ ch ≥ 6 then st - 1 else -1) }, st, cp, mp)
+      else .err .badArg := by
+  unfold msSurroundCreate
+  rw [if_neg (by omega), hsl]
+  have hp' : layoutPasses ch (st, cp, mp) (decide (fam = 2)) = true := by
+    have : (fam == 2) = decide (fam = 2) := by simp [BEq.beq]
+    rw [← this]; exact hp
+  cases allocOk
+  · rfl
+  · simp only [Bool.not_true, Bool.false_eq_true, ite_false]
+    rw [msEncInit_of_passes hp']
+    by_cases hv : (validFs fs && validApp app) = true
+    · rw [if_pos hv, if_pos hv]; simp
+    · rw [if_neg hv, if_neg hv]; simp
 
 /-- `opus_multistream_surround_encoder_create`: the full acceptance table. -/
 theorem msSurroundCreate_spec (fs ch fam app : Int) (allocOk : Bool) :
@@ -111,51 +184,28 @@ theorem msSurroundCreate_spec (fs ch fam app : Int) (allocOk : Bool) :
     (1 ≤ ch ∧ ch ≤ 255 → surroundLegalB ch.toNat fam = true → allocOk = true → (validFs fs && validApp app) = true →
         ∃ s st cp mp, msSurroundCreate fs ch fam app allocOk = .ok (s, st, cp, mp) ∧
           surroundLayout ch fam = .ok (st, cp, mp) ∧ s.streams = msStreams fs st cp app (if fam = 1 ∧ ch ≥ 6 then st - 1 else -1)) := by
-  have hrange : ¬ (ch > 255 ∨ ch < 1) → ch = ((ch.toNat : Nat) : Int) ∧ 1 ≤ ch.toNat ∧ ch.toNat ≤ 255 := by
-    intro h; omega
   refine ⟨?_, ?_, ?_, ?_, ?_⟩
   · intro h
     unfold msSurroundCreate
     rw [if_pos (by omega)]
-  all_goals
-    intro hc hl
-    have hnr : ¬ (ch > 255 ∨ ch < 1) := by omega
-    obtain ⟨hcn, h1, h2⟩ := hrange hnr
-    unfold msSurroundCreate
-    rw [if_neg hnr]
-    by_cases hfam : fam = 0 ∨ fam = 1 ∨ fam = 2 ∨ fam = 255
-    · have hent := surround_entry fam hfam ch.toNat h1 h2
-      rw [← hcn] at hent
-      cases hsl : surroundLayout ch fam with
-      | err e =>
-        rw [hsl] at hent
-        first
-        | rfl
-        | (simp only [Bool.not_eq_true'] at hent; rw [hent] at hl; cases hl)
-      | oob => rw [hsl] at hent; cases hent
-      | abort => rw [hsl] at hent; cases hent
-      | ok l =>
-        rw [hsl] at hent
-        obtain ⟨st, cp, mp⟩ := l
-        simp only [Bool.and_eq_true] at hent
-        first
-        | (rw [hent.1] at hl; cases hl)
-        | (intro ha; subst ha; rfl)
-        | (intro ha hv; subst ha
-           simp only [Bool.not_true, Bool.false_eq_true, ite_false]
-           rw [msEncInit_of_passes (by simpa using hent.2), if_neg (by simp [hv])])
-        | (intro ha hv; subst ha
-           simp only [Bool.not_true, Bool.false_eq_true, ite_false]
-           rw [msEncInit_of_passes (by simpa using hent.2), if_pos hv]
-           exact ⟨_, st, cp, mp, rfl, rfl, rfl⟩)
-    · have hother : fam ≠ 0 ∧ fam ≠ 1 ∧ fam ≠ 2 ∧ fam ≠ 255 := by omega
-      rw [surroundLayout_other ch fam hother]
-      first
-      | rfl
-      | (exfalso
-         have : surroundLegalB ch.toNat fam = false := by
-           simp [surroundLegalB, hother.1, hother.2.1, hother.2.2.1, hother.2.2.2]
-         rw [this] at hl; cases hl)
+  · intro hc hl
+    rcases surround_cases ch fam hc with ⟨h1, _⟩ | ⟨_, e, he⟩
+    · rw [h1] at hl; cases hl
+    · unfold msSurroundCreate
+      rw [if_neg (by omega), he]
+  · intro hc hl ha
+    rcases surround_cases ch fam hc with ⟨_, ⟨st, cp, mp⟩, hsl, hp⟩ | ⟨h1, _⟩
+    · rw [msSurroundCreate_ok_eq hc hsl hp, if_pos ha]
+    · rw [h1] at hl; cases hl
+  · intro hc hl ha hv
+    rcases surround_cases ch fam hc with ⟨_, ⟨st, cp, mp⟩, hsl, hp⟩ | ⟨h1, _⟩
+    · rw [msSurroundCreate_ok_eq hc hsl hp, if_neg (by simp [ha]), if_neg (by simp [hv])]
+    · rw [h1] at hl; cases hl
+  · intro hc hl ha hv
+    rcases surround_cases ch fam hc with ⟨_, ⟨st, cp, mp⟩, hsl, hp⟩ | ⟨h1, _⟩
+    · rw [msSurroundCreate_ok_eq hc hsl hp, if_neg (by simp [ha]), if_pos hv]
+      exact ⟨_, st, cp, mp, rfl, hsl, rfl⟩
+    · rw [h1] at hl; cases hl
 
 /-! ### Projection (mapping family 3) -/
 
@@ -208,6 +258,37 @@ theorem projEncCreate_spec (fs ch fam app : Int) (allocOk : Bool) :
       cases ho : projOrderPlusOne ch with
       | none => trivial
       | some o => rw [ho] at h2; simpa using h2
+  have hok : legal → projEncCreate fs ch fam app allocOk =
+      if allocOk = false then .err .allocFail
+      else if (validFs fs && validApp app) = true then
+        .ok ({ ms := { nbChannels := ch, nbStreams := (ch + 1) / 2, nbCoupled := ch / 2, bitrateBps := OPUS_AUTO,
+                       variableDuration := FRAMESIZE_ARG, application := app, lfeStream := -1, surround := false,
+                       ambisonics := false, streams := msStreams fs ((ch + 1) / 2) (ch / 2) app (-1) },
+               demixGain := projDemixGain ((projOrderPlusOne ch).getD 0) }, (ch + 1) / 2, ch / 2)
+      else .err .badArg := by
+    intro ⟨hf, h0, hb⟩
+    have hlt : ch < 260 := by
+      simp only [projLegalB, List.contains_iff_mem, List.mem_cons, List.mem_nil_iff, or_false] at hb
+      omega
+    obtain ⟨hp, _⟩ := hfacts ⟨h0, hlt⟩
+    rw [hb] at hp
+    unfold projPasses at hp
+    unfold projEncCreate
+    rw [if_neg (by omega)]
+    cases ho : projOrderPlusOne ch with
+    | none => rw [ho] at hp; cases hp
+    | some o =>
+      rw [ho] at hp
+      simp only [Bool.and_eq_true, Bool.not_eq_true', decide_eq_false_iff_not, bne_iff_ne, ne_eq, decide_eq_true_eq] at hp
+      obtain ⟨⟨hd, hsz⟩, hlp⟩ := hp
+      simp only [hd, ite_false]
+      cases allocOk
+      · rfl
+      · simp only [Bool.not_true, Bool.false_eq_true, ite_false, hsz]
+        rw [msEncInit_of_passes hlp]
+        by_cases hv : (validFs fs && validApp app) = true
+        · rw [if_pos hv, if_pos hv]; simp
+        · rw [if_neg hv, if_neg hv]; simp
   refine ⟨?_, ?_, ?_, ?_⟩
   · intro hn
     unfold projEncCreate
@@ -229,32 +310,13 @@ theorem projEncCreate_spec (fs ch fam app : Int) (allocOk : Bool) :
           · simp only [hz, ite_true]
       · rw [projOrderPlusOne_big ch (by omega)]
     · rw [if_pos hf]
-  all_goals
-    intro ⟨hf, h0, hb⟩
-    have hlt : ch < 260 := by
-      simp only [projLegalB, List.contains_iff_mem, List.mem_cons, List.mem_nil_iff, or_false] at hb
-      omega
-    obtain ⟨hp, _⟩ := hfacts ⟨h0, hlt⟩
-    rw [hb] at hp
-    unfold projPasses at hp
-    unfold projEncCreate
-    rw [if_neg (by omega)]
-    cases ho : projOrderPlusOne ch with
-    | none => rw [ho] at hp; cases hp
-    | some o =>
-      rw [ho] at hp
-      simp only [Bool.and_eq_true, Bool.not_eq_true', decide_eq_false_iff_not, bne_iff_ne, ne_eq, decide_eq_true_eq] at hp
-      obtain ⟨⟨hd, hsz⟩, hlp⟩ := hp
-      simp only [hd, ite_false]
-      first
-      | (intro ha; subst ha; rfl)
-      | (intro ha hv; subst ha
-         simp only [Bool.not_true, Bool.false_eq_true, ite_false, hsz]
-         rw [msEncInit_of_passes hlp, if_neg (by simp [hv])])
-      | (intro ha hv; subst ha
-         simp only [Bool.not_true, Bool.false_eq_true, ite_false, hsz]
-         rw [msEncInit_of_passes hlp, if_pos hv]
-         exact ⟨_, rfl, rfl, rfl⟩)
+  · intro hl ha
+    rw [hok hl, if_pos ha]
+  · intro hl ha hv
+    rw [hok hl, if_neg (by simp [ha]), if_neg (by simp [hv])]
+  · intro hl ha hv
+    rw [hok hl, if_neg (by simp [ha]), if_pos hv]
+    exact ⟨_, rfl, rfl, rfl⟩
 
 /-! ### Projection encoder ctl -/
 
